@@ -202,7 +202,7 @@ static std::vector<std::string> split(const std::string& line)
     if (c == '\t') f.push_back("");
     else if (c == '\\' && i + 1 < line.size()) {
       char d = line[++i];
-      f.back() += d == 't' ? '\t' : d == 'n' ? '\n' : d == 'r' ? '\r' : d;
+      f.back() += d == 't' ? '\t' : d == 'n' ? '\n' : d == 'r' ? '\r' : d == '0' ? '\0' : d;
     } else f.back() += c;
   }
   return f;
